@@ -291,7 +291,8 @@ class PeriodicGrid(Grid):
         # Compute the fractional coordinates, which are only used temporarily.
         # They are not stored as an attribute.
         if points.ndim == 1:
-            frac_points = points * recivecs
+            # (without lattice vectors there are no fractional coordinates)
+            frac_points = points * recivecs if realvecs.size > 0 else np.zeros(0)
         else:
             frac_points = points @ recivecs.T
         # Wrap the points back into the primitive cell, in case this was asked.
@@ -306,7 +307,9 @@ class PeriodicGrid(Grid):
         # Compute the minimal and maximal values of the fractional coordinates.
         # These are the intervals spanned by the fractional coordinates along
         # each lattice vector: ``frac_intvls``.
-        if points.ndim == 1:
+        if points.ndim == 1 and realvecs.size == 0:
+            frac_intvls = np.zeros((0, 2))
+        elif points.ndim == 1:
             frac_intvls = np.array([[frac_points.min(), frac_points.max()]])
         else:
             frac_intvls = np.array([frac_points.min(axis=0), frac_points.max(axis=0)]).T
